@@ -349,6 +349,7 @@ def run(ctx):
         run_repo_suite(ctx, ["test_calc.py", "test_spatial.py", "test_catalog.py", "test_regions.py", "test_forecast.py", "test_evaluations.py",
                              "test_magnitude_tests.py", "test_adaptiveHistogram.py"])
 
+META["added"] = "Added: awkward start/step pairs (first edge small against the step, non-binary steps), explicit-tol grids, spacings >= 2 (subnormals next to a 0.0 edge), generator check over awkward steps, the repository's own test-suite as a workload under the contract (thorough)."
 MANIFEST = {
     "technique": "runtime contract (post-condition) on the real bin1d_vec/cleaner_range at every call site + exact-comparison reference bin over generated edge-adjacent probes",
     "level_text": "Every call of bin1d_vec made by the workload and by the library's own call sites is checked by an exact-comparison oracle (two hard clauses + documented round-off band); ~1e7 (quick) to ~1e9 (thorough) probe values concentrated on edges +-ulps over thousands of grids, both modes, scalar/array/int/float32 inputs; edge generators compared element-wise with the exact Decimal grid. Held-on-observed, not a proof: the float domain is sampled.",
